@@ -933,6 +933,9 @@ func main() {
 		nTbl := run.Scale(220, 4000)
 		for i := 0; i < nTbl; i++ {
 			q := genReq(r, false)
+			// origin-form targets only: with an absolute-form target net/http takes the host from the
+			// request line, not from the Host header this class is about
+			q.Target = originPart(q.Target)
 			if q.Proto != "HTTP/1.0" || q.Host != "" {
 				q.Host = tblHosts[r.Intn(len(tblHosts))]
 			}
